@@ -23,6 +23,7 @@ import (
 
 	"github.com/dadrus/heimdall/verif/engine"
 	"github.com/dadrus/heimdall/verif/engine/sched"
+	"github.com/dadrus/heimdall/verif/props/c18"
 	"github.com/dadrus/heimdall/verif/props/fsstart"
 	"github.com/dadrus/heimdall/verif/hx"
 )
@@ -457,6 +458,9 @@ func run(c *engine.Ctx) {
 
 	// changes made while a provider starts are neither lost nor applied twice
 	fsstart.RunAll(c)
+
+	// polls of one bucket of the cloud_blob provider never overlap under its real scheduler
+	c18.RunBlobScheduler(c)
 
 	bound := 2
 	if !c.Quick() {
